@@ -344,3 +344,23 @@ MUTANTS["C20"] += [
      "            direct_matched = bool(rule[\"attrs\"][\"direct_regexp\"].match(row))\n",
      "            direct_matched = bool(rule[\"attrs\"][\"direct_regexp\"].match(row))\n            if direct_matched:\n                rule[\"attrs\"][\"last_row\"] = row\n"),
 ]
+
+# ---- round 11 sub-checks ----------------------------------------------------------------------------------
+MUTANTS["C02"] += [
+    ("continuation-line-needs-a-shallow-indent", "annet/annlib/rbparser/syntax.py", 'r"\\n(?!\\s*%(?!context))"', 'r"\\n(?! {0,3}%(?!context))"'),
+]
+MUTANTS["C06"] += [
+    ("inactive-mark-cut-wherever-it-stands", "annet/annlib/lib.py", "    if jun_is_inactive(key):\n        key = key[len(jun_inactive_pfx()):]\n    return key",
+     "    if jun_inactive_pfx() in key:\n        key = key[key.index(jun_inactive_pfx()) + len(jun_inactive_pfx()):]\n    return key"),
+]
+MUTANTS["C19"] += [
+    ("sonic-after-command-added-to-the-reload-entry", "annet/annlib/rulebook/common.py",
+     "        if hw.soft.startswith((\"Cumulus\", \"SwitchDev\")):\n            if os.environ.get(\"ETCKEEPER_CHECK\", False):\n                before.add_cmd(Command(\"etckeeper check\"))\n",
+     "        if hw.soft.startswith((\"Cumulus\", \"SwitchDev\")):\n            if os.environ.get(\"ETCKEEPER_CHECK\", False):\n                before.add_cmd(Command(\"etckeeper check\"))\n        elif hw.soft.startswith(\"SONiC\"):\n            after.add_cmd(Command(\"sudo config save -y\"))\n"),
+]
+MUTANTS["C17"] += [
+    ("diff-works-on-shallow-copies", "annet/annlib/patching.py", "    old = copy.deepcopy(old)\n    new = copy.deepcopy(new)\n", "    old = copy.copy(old)\n    new = copy.copy(new)\n"),
+]
+MUTANTS["C14"] += [
+    ("and-of-conditions-extends-the-left-operand", "annet/rpl/condition.py", "        return AndCondition(*self.conditions, other)", "        self.conditions.extend(self._unpack(other))\n        return self"),
+]
